@@ -920,6 +920,19 @@ def run_impl(case):
                     got = {k_: o[k_] for k_ in want}
                     if got != want:
                         V("ops-consistent", f"{a!r} vs {b!r}: eq={o['eq']} gt={o['gt']} but {got} (expected {want})", i, j)
+                # the documented rules of `Literal.__gt__` between classes: different datatypes (plain = xsd:string) order as
+                # their IRIs, one datatype with different tags orders untagged first, then as the lower-cased tags
+                fast = all(x.datatype is not None and str(x.datatype) in NUMERIC_SPEC and x.value is not None and not x.ill_typed
+                           for x in (a, b))
+                da, db = (str(x.datatype) if x.datatype is not None else XSD + "string" for x in (a, b))
+                la, lb = ((x.language or "").lower() for x in (a, b))
+                if not fast and (da != db or la != lb):
+                    wgt = (da > db) if da != db else (bool(la) and (not lb or la > lb))
+                    wlt = (da < db) if da != db else (bool(lb) and (not la or lb > la))
+                    stats["class_pairs"] = stats.get("class_pairs", 0) + 1
+                    if o["gt"] != _b(wgt) or o["lt"] != _b(wlt):
+                        V("class-order", f"{a!r} vs {b!r}: datatype IRI, then language tag, give >:{_b(wgt)} <:{_b(wlt)}; "
+                                         f"got >:{o['gt']} <:{o['lt']}", i, j)
                 f = fams[i]
                 if f is None or isinstance(f, Exception) or fams[j] != f:
                     continue
@@ -1554,7 +1567,7 @@ def shrink(case):
 # ------------------------------------------------------------------ known findings: narrow matchers
 
 _U_ESC = re.compile(r"\\[uU][0-9A-Fa-f]{4}")
-_ORDER_TAGS = {"order-eq", "order-asym", "order-exc", "ops-consistent", "fam-order", "fam-trans"}
+_ORDER_TAGS = {"order-eq", "order-asym", "order-exc", "ops-consistent", "fam-order", "fam-trans", "class-order"}
 _SORT_TAGS = {"sort-exc", "sort-repro"}
 
 
